@@ -56,15 +56,20 @@ def run(ck):
                 users[root_of(prog, f).nname].add((cn.split("::")[-1], f.loc(b, "T")))
     ck.floor("rayon call sites (concurrent build)", n_rayon, 100)
     ck.floor("functions using rayon", len(users), 30)
+    from . import vguards as V
+    search = {c.nname for c in V.nonce_search_scope(prog) if c.kind != "closure"}
+    allowed = dict(ALLOWED_NONDET)
+    for nm in search:
+        allowed.setdefault(nm, ALLOWED_NONDET[V.GRIND] + " (private helper of the search)")
     for fn, items in sorted(users.items()):
         ck.saw(fn)
         nd = sorted(i for i, _ in items if i in NONDET)
         if nd:
-            ck.ob("N", f"nondet@{fn}", fn in ALLOWED_NONDET,
-                  f"{fn} uses scheduling-dependent combinator(s) {nd}" + (f" — allowed: {ALLOWED_NONDET[fn]}" if fn in ALLOWED_NONDET else
+            ck.ob("N", f"nondet@{'nonce-search' if fn in allowed else fn}", fn in allowed,
+                  f"{fn} uses scheduling-dependent combinator(s) {nd}" + (f" — allowed: {allowed[fn]}" if fn in allowed else
                                                                          " outside the nonce search: results may differ between runs"),
                   loc=[l for i, l in items if i in NONDET][0])
-    ck.ob("N", "nonce-search-present", "winter_prover::channel::ProverChannel::grind_query_seed" in users,
+    ck.ob("N", "nonce-search-present", bool(search & set(users)),
           "the nonce search is the (only) place where a scheduling-dependent result is acceptable", loc=None)
     # (R)
     raw = defaultdict(list)
